@@ -70,6 +70,12 @@ func checkC08(an *Analysis, add func(Violation)) {
 			continue
 		}
 		_, ref := an.decideOn(c, own)
+		if an.foreignDeciding(c) {
+			continue // a stale datagram of an earlier call on the shared port decided this one: C03's business
+		}
+		if ok, _ := an.mustSucceed(c, c.Client.Timeout); !ok {
+			continue // something else in the plan decides first, or at the same instant
+		}
 		if c.Rec.Obs.Failed() {
 			if ref.Fail == 0 {
 				v("own-reply", fmt.Sprintf("its controller answered within the timeout of being asked (turn began %v after the call) but the call failed: %s", turnOf(c)-c.Begin.T, c.Rec.Obs.Err))
@@ -252,6 +258,32 @@ func (an *Analysis) foreignTraffic(c *Call) bool {
 	return false
 }
 
+// foreignDeciding: the call's socket was handed a datagram that is not part of its own plan and that may
+// legitimately decide the call: anything on a directed path (the first message decides), on the
+// broadcast path only what passes as the addressed controller's.
+func (an *Analysis) foreignDeciding(c *Call) bool {
+	for _, r := range c.Reads {
+		own := false
+		for _, e := range c.St.Plan.Emits {
+			truncated := r.Note != fmt.Sprint(r.N)
+			if (len(e.Data) == len(r.Data) || (truncated && len(e.Data) > len(r.Data))) && string(e.Data[:len(r.Data)]) == string(r.Data) {
+				own = true
+				break
+			}
+		}
+		if own {
+			continue
+		}
+		if c.Route.Path != "broadcast" {
+			return true
+		}
+		if r.N == 64 && len(r.Data) == 64 && model.Serial(r.Data) == c.St.Args.Serial {
+			return true
+		}
+	}
+	return false
+}
+
 func checkC09(an *Analysis, add func(Violation)) {
 	res := an.Res
 	if res.Verdict != "" {
@@ -290,7 +322,7 @@ func checkC09(an *Analysis, add func(Violation)) {
 				// the timeout covers connecting and the exchange
 				wire = c.Syns[0].T
 			}
-			if ok, a := an.mustSucceed(c, T-(c.Sends[0].T-wire)); ok && c.Rec.Obs.Failed() && c.Rec.Obs.Panic == "" && !an.foreignTraffic(c) {
+			if ok, a := an.mustSucceed(c, T-(c.Sends[0].T-wire)); ok && c.Rec.Obs.Failed() && c.Rec.Obs.Panic == "" && !an.foreignDeciding(c) {
 				v("gave-up-early", fmt.Sprintf("a valid reply was due %v after the request reached the wire (turn began %v after the call), before the timeout, but the call failed after %v: %s",
 					a.at, turn-c.Begin.T, c.End.T-c.Sends[0].T, c.Rec.Obs.Err))
 			}
@@ -390,6 +422,10 @@ func checkC11(an *Analysis, add func(Violation)) {
 			v("failed", "discovery failed: "+c.Rec.Obs.Err)
 			continue
 		}
+		if T := c.Client.Timeout; c.End.T < c.Sends[0].T+T {
+			v("window-short", fmt.Sprintf("discovery stopped collecting %v after its request; replies may arrive for the whole timeout %v (it had waited %v for the bind port)", c.End.T-c.Sends[0].T, T, c.Turn()-c.Begin.T))
+			continue
+		}
 		conf := gen.ClientConf(c.Client)
 		port := model.BroadcastPort(conf)
 		// the collector's wake-up: reads completed before it must be in the result, later ones may be
@@ -470,7 +506,13 @@ type cb struct {
 }
 
 func checkC10(an *Analysis, add func(Violation)) {
-	listenerCheck(an, "C10", nil, add)
+	var relax func(e *model.Expect, data []byte)
+	if an.Sc.TZ != "" {
+		if loc := zones.Load(an.Sc.TZ); loc != nil {
+			relax = func(e *model.Expect, data []byte) { relaxZone(loc, model.GetStatus, e, data) }
+		}
+	}
+	listenerCheck(an, "C10", relax, add)
 	leaks(an, "C10", add)
 	if an.Res.Races > 0 {
 		// between two kernel hooks the simulator cannot interleave the receive loop and the dispatcher;
